@@ -30,9 +30,25 @@ func AcquireDirLock(dir string, fs vfs.FS) (*DirLock, error) {
 		return nil, err
 	}
 	lockPath := filepath.Join(dir, "LOCK")
-	f, err := fs.OpenFileHandle(lockPath, os.O_CREATE|os.O_RDWR, 0o600)
-	if err != nil {
-		return nil, err
+	// A holder unlinks the LOCK file when it releases the directory. A contender
+	// that opened the old file just before that would then hold a lock on an
+	// orphaned inode while somebody else locks a fresh LOCK file, so after
+	// locking we make sure the path still names the file we locked and retry
+	// otherwise.
+	var f vfs.File
+	for attempt := 0; ; attempt++ {
+		var err error
+		f, err = lockDirFile(fs, dir, lockPath)
+		if err != nil {
+			return nil, err
+		}
+		if lockFileCurrent(fs, lockPath, f) {
+			break
+		}
+		_ = f.Close()
+		if attempt >= dirLockMaxAttempts {
+			return nil, fmt.Errorf("dirlock: lock file %q keeps changing", lockPath)
+		}
 	}
 	success := false
 	defer func() {
@@ -40,16 +56,6 @@ func AcquireDirLock(dir string, fs vfs.FS) (*DirLock, error) {
 			_ = f.Close()
 		}
 	}()
-	fd, ok := vfs.FileFD(f)
-	if !ok {
-		return nil, fmt.Errorf("dirlock: file %q does not expose descriptor", lockPath)
-	}
-	if err := syscall.Flock(int(fd), syscall.LOCK_EX|syscall.LOCK_NB); err != nil {
-		if errors.Is(err, syscall.EWOULDBLOCK) {
-			return nil, fmt.Errorf("dirlock: directory %q already in use", dir)
-		}
-		return nil, err
-	}
 	if err := f.Truncate(0); err == nil {
 		pid := os.Getpid()
 		host := ""
@@ -63,24 +69,62 @@ func AcquireDirLock(dir string, fs vfs.FS) (*DirLock, error) {
 	return &DirLock{file: f, path: lockPath, fs: fs}, nil
 }
 
-// Release unlocks the directory and removes the lock file.
+const dirLockMaxAttempts = 16
+
+// lockDirFile opens (creating if needed) the lock file and takes the flock on it.
+func lockDirFile(fs vfs.FS, dir, lockPath string) (vfs.File, error) {
+	f, err := fs.OpenFileHandle(lockPath, os.O_CREATE|os.O_RDWR, 0o600)
+	if err != nil {
+		return nil, err
+	}
+	fd, ok := vfs.FileFD(f)
+	if !ok {
+		_ = f.Close()
+		return nil, fmt.Errorf("dirlock: file %q does not expose descriptor", lockPath)
+	}
+	if err := syscall.Flock(int(fd), syscall.LOCK_EX|syscall.LOCK_NB); err != nil {
+		_ = f.Close()
+		if errors.Is(err, syscall.EWOULDBLOCK) {
+			return nil, fmt.Errorf("dirlock: directory %q already in use", dir)
+		}
+		return nil, err
+	}
+	return f, nil
+}
+
+// lockFileCurrent reports whether lockPath still names the file behind f.
+func lockFileCurrent(fs vfs.FS, lockPath string, f vfs.File) bool {
+	pathInfo, err := fs.Stat(lockPath)
+	if err != nil {
+		return false
+	}
+	handleInfo, err := f.Stat()
+	if err != nil {
+		return false
+	}
+	return os.SameFile(pathInfo, handleInfo)
+}
+
+// Release removes the lock file and unlocks the directory. The file is
+// unlinked while the lock is still held, so nobody can lock the old file
+// after it has lost its name.
 func (l *DirLock) Release() error {
 	if l == nil || l.file == nil {
 		return nil
 	}
 	var firstErr error
+	fs := vfs.Ensure(l.fs)
+	if err := fs.Remove(l.path); err != nil && !errors.Is(err, os.ErrNotExist) {
+		firstErr = err
+	}
 	if fd, ok := vfs.FileFD(l.file); ok {
-		if err := syscall.Flock(int(fd), syscall.LOCK_UN); err != nil {
+		if err := syscall.Flock(int(fd), syscall.LOCK_UN); err != nil && firstErr == nil {
 			firstErr = err
 		}
-	} else {
+	} else if firstErr == nil {
 		firstErr = fmt.Errorf("dirlock: file %q does not expose descriptor", l.path)
 	}
 	if err := l.file.Close(); err != nil && firstErr == nil {
-		firstErr = err
-	}
-	fs := vfs.Ensure(l.fs)
-	if err := fs.Remove(l.path); err != nil && !errors.Is(err, os.ErrNotExist) && firstErr == nil {
 		firstErr = err
 	}
 	l.file = nil
